@@ -19,7 +19,7 @@ use yash_env::trap::{Action, SetActionError, SignalSystem};
 pub const INFO: PropInfo = PropInfo {
     id: "C11",
     level: "exploration",
-    rule: "two families of cases. (history) operation sequences over {set_action(signal, default|ignore|command) with override_ignore fixed per history (interactive or not), enable/disable the internal dispositions for SIGCHLD / terminators / stoppers / all, enter_subshell(ignore_sigint_sigquit, keep_stoppers), deliver(signal) + poll, take_caught_signal*} on signals {INT QUIT TERM CHLD TSTP TTIN USR1 KILL STOP} x 3 configurations of initially ignored signals, executed on TrapSet over Rc<Concurrent<VirtualSystem>>; exhaustive to length 4 (quick) / strided length 5 (thorough) over a 53-operation alphabet, random to length 14. Oracle after every operation: for every signal the disposition installed in the simulated process == max(internal, disposition of (user action or inherited)) in the order Default<Ignore<Catch; set_action fails with InitiallyIgnored exactly when the signal was ignored on entry and override is off, with SIGKILL/SIGSTOP errors for those; take_caught_signal yields each delivered trapped signal exactly once. (delivery) scripts of 3-7 commands with `trap 'mark T$?' USR1`: the signal is sent by `kill -s USR1 $$` at every position, or raised asynchronously by the scheduler before a generated step; exactly one trap execution per delivery, after the command during which it arrived and before the next command of that process (or wait returns >128 and the action runs before the next command), `$?` seen by the action is that of the interrupted/previous command and is restored afterwards. (chain) two traps, USR1 -> `mark T $?[; kill -s USR2 $$ | ; return 7]`, USR2 -> `mark U $?`: USR2 delivered while the USR1 action runs, both signals pending at one command boundary (sent by a subshell in either order), a USR1 action that returns from the enclosing function, delivery by the last command of the script; between two consecutive marks each delivery's action runs exactly once, the action of a signal sent by another action follows it directly, no command of the left function runs, `$?` untouched. Non-trivial: history changes the effective disposition of a signal >= 2 times; delivery arrives while >= 1 command is still to run; distinct by serialised case.",
+    rule: "two families of cases. (history) operation sequences over {set_action(signal, default|ignore|command) with override_ignore fixed per history (interactive or not), enable/disable the internal dispositions for SIGCHLD / terminators / stoppers / all, enter_subshell(ignore_sigint_sigquit, keep_stoppers), deliver(signal) + poll, take_caught_signal*} on signals {INT QUIT TERM CHLD TSTP TTIN USR1 KILL STOP} x 3 configurations of initially ignored signals, executed on TrapSet over Rc<Concurrent<VirtualSystem>>; exhaustive to length 4 (quick) / strided length 5 (thorough) over a 53-operation alphabet, random to length 14. Oracle after every operation: for every signal the disposition installed in the simulated process == max(internal, disposition of (user action or inherited)) in the order Default<Ignore<Catch; set_action fails with InitiallyIgnored exactly when the signal was ignored on entry and override is off, with SIGKILL/SIGSTOP errors for those; take_caught_signal yields each delivered trapped signal exactly once. (delivery) scripts of 3-7 commands with `trap 'mark T$?' USR1`: the signal is sent by `kill -s USR1 $$` at every position, or raised asynchronously by the scheduler before a generated step, also in an interactive shell that reads the script through a pipe in generated chunks so that the `read` built-in (and the shell's own input) can be blocked when the signal arrives; exactly one trap execution per delivery, after the command during which it arrived and before the next command of that process (or wait returns >128 and the action runs before the next command), `$?` seen by the action is that of the interrupted/previous command and is restored afterwards. (chain) two traps, USR1 -> `mark T $?[; kill -s USR2 $$ | ; return 7]`, USR2 -> `mark U $?`: USR2 delivered while the USR1 action runs, both signals pending at one command boundary (sent by a subshell in either order), a USR1 action that returns from the enclosing function, delivery by the last command of the script; between two consecutive marks each delivery's action runs exactly once, the action of a signal sent by another action follows it directly, no command of the left function runs, `$?` untouched. Non-trivial: history changes the effective disposition of a signal >= 2 times; delivery arrives while >= 1 command is still to run; distinct by serialised case.",
     assumptions: &[
         "signals are not queued: two deliveries before a command boundary may run the action once or twice (counted, not judged)",
         "asynchronous delivery is explored only between scheduler steps (blocking points and preemption points)",
@@ -363,6 +363,9 @@ pub enum Step {
     Func(u8),
     /// `kill -s USR1 $$`
     Kill,
+    /// `read rX` + a data line (only when the script is fed through a pipe: the built-in then
+    /// blocks until the feeder has written the line, which is when a signal can arrive)
+    Read,
 }
 
 #[derive(Clone, Debug, PartialEq, Eq, Hash, Serialize, Deserialize)]
@@ -371,6 +374,9 @@ pub struct DeliverCase {
     /// asynchronous delivery: raise USR1 on the shell process before this scheduler step
     pub raise_at: Option<u32>,
     pub sched: Option<u64>,
+    /// interactive shell (`-i`) reading the script from a pipe written in chunks of these sizes
+    #[serde(default)]
+    pub interactive_pipe: Option<Vec<u16>>,
 }
 
 fn check_deliver(c: &DeliverCase) -> Outcome {
@@ -410,6 +416,12 @@ fn check_deliver(c: &DeliverCase) -> Outcome {
                 script.push_str(&format!("f {n}\n"));
                 status = *n as i32;
             }
+            Step::Read => {
+                if c.interactive_pipe.is_some() {
+                    script.push_str("read rX\nsome data\n");
+                    status = 0;
+                }
+            }
             Step::Kill => {
                 script.push_str("kill -s USR1 $$\n");
                 // kill returns 0; the trap runs after it, sees $? = 0, and $? stays 0
@@ -422,6 +434,20 @@ fn check_deliver(c: &DeliverCase) -> Outcome {
     expect.push((next.to_string(), status));
     let status = 0; // the final `mark` succeeds
     let mut s = vsys::Setup::script(&script);
+    if let Some(chunks) = &c.interactive_pipe {
+        s.argv = vec!["yash".into(), "-i".into()];
+        let bytes = script.as_bytes();
+        let mut v = vec![];
+        let (mut i, mut k) = (0, 0);
+        while i < bytes.len() {
+            let want = if chunks.is_empty() { bytes.len() } else { (chunks[k % chunks.len()] as usize).max(1) };
+            let end = (i + want).min(bytes.len());
+            v.push(bytes[i..end].to_vec());
+            i = end;
+            k += 1;
+        }
+        s.stdin_pipe = Some(v);
+    }
     if let Some(seed) = c.sched {
         s.chooser = Chooser::Seeded(seed);
         s.preempt = true;
@@ -483,6 +509,11 @@ fn check_deliver(c: &DeliverCase) -> Outcome {
                 return Outcome::fail(ctx(format!("trap action: $? on entry {st} but it printed {shown}")));
             }
         }
+        // delivered when every command of the script had already run (the shell was waiting for
+        // more input and met the end of it): no command boundary follows, nothing is demanded
+        (true, 0) if r.log.raised_trace_len >= got.len() && c.interactive_pipe.is_some() => {
+            return Outcome::pass(false).class("delivered-after-the-last-command");
+        }
         (true, 0) => return Outcome::fail(ctx(format!("USR1 was delivered to the shell (step {:?}) but the trap action never ran: {got:?}", c.raise_at))),
         (true, n) => return Outcome::fail(ctx(format!("one asynchronous delivery but {n} trap executions: {got:?}"))),
     }
@@ -495,6 +526,8 @@ fn check_deliver(c: &DeliverCase) -> Outcome {
         .class_if(kills > 0, "self-kill")
         .class_if(raised && async_t.first().is_some_and(|a| a.0 + 1 < got.len()), "delivery-before-last-command")
         .class_if(c.raise_at.is_some() && !raised, "raise-point-beyond-run")
+        .class_if(c.interactive_pipe.is_some(), "interactive-shell-fed-through-a-pipe")
+        .class_if(c.interactive_pipe.is_some() && c.steps.contains(&Step::Read), "read-built-in-may-block")
 }
 
 // ---------------------------------------------------------------------------------------------
@@ -716,6 +749,7 @@ fn arb_step() -> impl Strategy<Value = Step> {
         2 => (0u8..4, 0u8..4).prop_map(|(a, b)| Step::Pipe(a, b)),
         1 => (0u8..4).prop_map(Step::Func),
         2 => Just(Step::Kill),
+        2 => Just(Step::Read),
     ]
 }
 
@@ -766,8 +800,13 @@ pub fn run(ctx: &Ctx, st: &mut Stats) {
     // (b) deliveries
     let cases = ctx.tier.pick(40_000, 2_000_000);
     DELIVER.run_random(ctx, st, cases, || {
-        (prop::collection::vec(arb_step(), 2..7), prop::option::weighted(0.7, 0u32..16), prop::option::weighted(0.5, any::<u64>()))
-            .prop_map(|(steps, raise_at, sched)| DeliverCase { steps, raise_at, sched })
+        (
+            prop::collection::vec(arb_step(), 2..7),
+            prop::option::weighted(0.7, 0u32..24),
+            prop::option::weighted(0.5, any::<u64>()),
+            prop::option::weighted(0.35, prop::collection::vec(1u16..24, 0..4)),
+        )
+            .prop_map(|(steps, raise_at, sched, interactive_pipe)| DeliverCase { steps, raise_at, sched, interactive_pipe })
     });
     // (c) chains
     let cases = ctx.tier.pick(30_000, 1_500_000);
